@@ -58,6 +58,9 @@ CHECKS = {
  "C13": dict(engine="enum", technique="bounded-exhaustive enumeration of families/streams/call histories through ProtobufEncoder, decoded by an independent wire decoder driven by proto_model.proto",
    text="The same generator over all five metric types, streams, gathered output, refused families at every stream position and encode-call histories (failing writer at every byte offset, mutate through setters / public fields / clone then re-encode): the stream must frame exactly one length-delimited message per family and decode bit-exactly to the encoded families.",
    note="decoder in harness/src/pbwire.rs trusted; schema read from the repo's .proto at run time", ref="6 C13"),
+ "C16": dict(engine="enum", technique="bounded-exhaustive enumeration of API scenarios, executed by one program compiled under both feature configurations; transcripts compared byte for byte",
+   text="One scenario program is built twice against /repo (protobuf-backed and --no-default-features plain data model) and run over every scenario of a bounded grammar (collector subsets <=2 (thorough 3) of 12 kinds x all combinations of 5 update scripts x 5 registry configurations x re-gather after unregister); the bit-exact dumps of gather() and the TextEncoder output must be identical.",
+   note="scenario grammar fixed; only API common to both models is used", ref="6 C16"),
 }
 
 NOT_YET = "check not built yet in this round; planned per DESIGN.md section 6"
